@@ -649,6 +649,12 @@ func (c *Ctx) funcxHistories(names []string, note func(k, bad, undec string)) {
 						note("histories", "", why)
 						return
 					}
+					// the default collection is a list of its functions from the start: what Length / Get show
+					// before any name was looked up is what a lookup finds
+					if len(model) < 3 {
+						note("histories", fmt.Sprintf("a freshly constructed default collection lists %q through Length / Get before any function was looked up by name, yet resolves its functions through FindByName: the entries are not those of an ordered list (a lookup changes what the table holds)", model), "")
+						return
+					}
 				}
 				told := "on the " + kind + " " + fmt.Sprintf("%q", model) + ": "
 				if kind == "default collection" {
